@@ -105,26 +105,42 @@ func (d *doublyConnectedEdgeList) assignFaces() {
 		})
 	}
 
-	// Populate inSet for faces that did not have edges from their respective
-	// input geometries.
+	// Populate inSet for every face. The number of areal components of an
+	// operand that cover a face (its depth) changes across an edge by the
+	// number of components bordering onto one side minus the number bordering
+	// onto the other. Depths are found relative to an arbitrary starting face
+	// by flood fill; the faces of least depth are outside the operand (the
+	// unbounded face is covered by nothing). Counting rather than stopping at
+	// the first border matters when components of a GeometryCollection
+	// operand overlap: a face enclosed by the borders of some components can
+	// still be covered by another one.
 	forEachOperand(func(operand operand) {
-		visited := make(map[*faceRecord]bool)
-		var dfs func(*faceRecord)
-		dfs = func(f *faceRecord) {
-			if visited[f] {
-				return
+		depth := make(map[*faceRecord]int, len(d.faces))
+		for _, start := range d.faces {
+			if _, ok := depth[start]; ok {
+				continue
 			}
-			visited[f] = true
-			forEachEdgeInCycle(f.cycle, func(e *halfEdgeRecord) {
-				if !e.srcFace[operand] {
-					e.twin.incident.inSet[operand] = true
-					dfs(e.twin.incident)
+			depth[start] = 0
+			component := []*faceRecord{start}
+			for i := 0; i < len(component); i++ {
+				f := component[i]
+				forEachEdgeInCycle(f.cycle, func(e *halfEdgeRecord) {
+					adj := e.twin.incident
+					if _, ok := depth[adj]; ok {
+						return
+					}
+					depth[adj] = depth[f] - e.srcFaceCount[operand] + e.twin.srcFaceCount[operand]
+					component = append(component, adj)
+				})
+			}
+			minDepth := depth[start]
+			for _, f := range component {
+				if depth[f] < minDepth {
+					minDepth = depth[f]
 				}
-			})
-		}
-		for _, f := range d.faces {
-			if f.inSet[operand] {
-				dfs(f)
+			}
+			for _, f := range component {
+				f.inSet[operand] = depth[f] > minDepth
 			}
 		}
 	})
